@@ -1430,9 +1430,12 @@ def body(R):
     # LenaStopFill) must not reach the chain, wherever the stopping branch stands, for every K and every bufsize.
     pre2c_quick = [["call", "inc"], ["var", "v", "dbl"], ["filter", "even"], ["slice", [2]], ["slice", [1, 3]],
                    ["runif", "even", [["dup"]]]]
-    pre2c = [[]] + [[p_] for p_ in (pre2c_quick if not thorough else PRE_SMALL + PRE_MORE)]
+    pre2c = [[]] + [[p_] for p_ in (pre2c_quick if not thorough else PRE_SMALL)]
     accs2c = [["store", False], ["sum"]] if not thorough else [["store", False], ["sum"], ["count"], ["mean", True]]
-    maxL2c = 5 if not thorough else 6
+    chains2c = [(list(pres), acc, []) for pres in pre2c for acc in accs2c]
+    if thorough:
+        chains2c += [([p_], ["store", False], []) for p_ in PRE_MORE]
+    maxL2c = 5
     flows2c = [("nested", L) for L in range(0, maxL2c + 1)] + [("mixed", 4)]
     stop_types = ["fcmut", "frmut"] + (["fcvar"] if thorough else [])
     # (before, after) around the chain; "@" is the stopping companion
@@ -1440,28 +1443,28 @@ def body(R):
     if thorough:
         layouts += [(("@",), ("seq", "fcall")), (("frallmut", "@"), ("fc",)), (("@", "src"), ("fcallmut",))]
     R.scope("drivers: the chain as a Split branch next to branches that update values in place and then stop",
-            "all chains with <= 1 pre element from %d pre kinds x %d accumulators, no post; flows of (data, nested "
+            "%d chains: <= 1 pre element from %d pre kinds x %d accumulators%s, no post; flows of (data, nested "
             "context) values of length L = 0..%d and one mixed flow of 4; a companion branch (in-place update, Slice(K), "
             "accumulator) of kind %r for every K in 0..L (K = L: it never stops) in the layouts %r (@ = the stopping "
             "companion, fcallmut / frallmut / seqmut = never-stopping fill-compute / fill-request / Sequence branches "
             "that update in place); Split bufsize in {1..L+1, None}; copy_buf=True"
-            % (len(pre2c) - 1, len(accs2c), maxL2c, stop_types, layouts), True)
-    for pres in pre2c:
-        for acc in accs2c:
-            chain = (list(pres), acc, [])
-            for fk, L in flows2c:
-                flow = make_flow(fk, L)
-                drivers = []
-                for K in range(L + 1):
-                    for t in stop_types:
-                        st = "%s:%d" % (t, K)
-                        for before, after in layouts:
-                            bf = tuple(st if c == "@" else c for c in before)
-                            af = tuple(st if c == "@" else c for c in after)
-                            for b in list(range(1, L + 2)) + [None]:
-                                drivers.append(["split", b, "tuple", bf, af, True])
-                R.case(True, {"chain": chain, "flow": flow, "drivers": len(drivers)})
-                n_exec += check_case(R, sh, chain, flow, drivers)
+            % (len(chains2c), len(pre2c) - 1, len(accs2c),
+               " plus %d more pre kinds with StoreFilled" % len(PRE_MORE) if thorough else "", maxL2c, stop_types,
+               layouts), True)
+    for chain in chains2c:
+        for fk, L in flows2c:
+            flow = make_flow(fk, L)
+            drivers = []
+            for K in range(L + 1):
+                for t in stop_types:
+                    st = "%s:%d" % (t, K)
+                    for before, after in layouts:
+                        bf = tuple(st if c == "@" else c for c in before)
+                        af = tuple(st if c == "@" else c for c in after)
+                        for b in list(range(1, L + 2)) + [None]:
+                            drivers.append(["split", b, "tuple", bf, af, True])
+            R.case(True, {"chain": chain, "flow": flow, "drivers": len(drivers)})
+            n_exec += check_case(R, sh, chain, flow, drivers)
 
     # ---- scope 3: random chains ------------------------------------------------------------------------------------
     n3 = 40000 if thorough else 2500
@@ -1489,7 +1492,7 @@ def body(R):
             after = tuple(rng.choice(comps) for _ in range(rng.choice([0, 1, 2])))
             drivers.append(["split", rng.choice(bs), rng.choice(["tuple", "fcs"]), before, after, rng.random() < 0.8])
         # companions that update their values in place (only meaningful with copy_buf=True)
-        for _k in range(2 if thorough else 1):
+        for _k in range(1):
             mcomps = comps + ["seqmut", "fcallmut", "frallmut"] + \
                 ["%s:%d" % (t, rng.randint(0, L)) for t in MUTATING_STOPPING for _ in range(2)]
             before = tuple(rng.choice(mcomps) for _ in range(rng.choice([0, 1, 1, 2, 3])))
